@@ -21,9 +21,11 @@ import (
 
 // fault describes what is done to one operation.
 type fault struct {
-	Kind    string // "", "crash", "cancel", "transient"
-	At      int    // mutation index for crash/cancel
-	Budget  int
+	Kind   string // "", "crash", "cancel", "transient", "errbefore", "errafter", "sticky"
+	At     int    // mutation index for crash/cancel; mutation attempt for errbefore/errafter; n-th distinct file for sticky
+	Budget int
+	Op     string           // sticky: "Save" or "Remove"
+	Type   backend.FileType // sticky: file type
 }
 
 func (f fault) String() string {
@@ -32,6 +34,12 @@ func (f fault) String() string {
 		return "no fault"
 	case "transient":
 		return fmt.Sprintf("transient backend errors (budget %d)", f.Budget)
+	case "errbefore":
+		return fmt.Sprintf("mutation attempt %d fails without effect", f.At)
+	case "errafter":
+		return fmt.Sprintf("mutation attempt %d takes effect but reports an error", f.At)
+	case "sticky":
+		return fmt.Sprintf("every %s of the %d. %s file fails", f.Op, f.At, f.Type)
 	}
 	return fmt.Sprintf("%s at mutation %d", f.Kind, f.At)
 }
@@ -52,6 +60,41 @@ func (w *world) arm(pr *proc, f fault) {
 				}
 			}
 		})
+	case "errbefore", "errafter":
+		// one Save/Remove attempt of this process fails once, with or without having taken effect
+		n := 0
+		kind := map[string]string{"errbefore": "err-before", "errafter": "err-after"}[f.Kind]
+		pr.cl.Script = func(op string, h backend.Handle, _ int) *simbe.Forced {
+			if op != "Save" && op != "Remove" {
+				return nil
+			}
+			n++
+			if n != f.At {
+				return nil
+			}
+			w.forcedFired++
+			w.s.Count("fault:forced-" + strings.ToLower(op) + "-" + kind)
+			return &simbe.Forced{Kind: kind}
+		}
+	case "sticky":
+		// every attempt of one operation on one particular file fails for this process
+		seen := map[string]int{}
+		pr.cl.Script = func(op string, h backend.Handle, _ int) *simbe.Forced {
+			if op != f.Op || h.Type != f.Type {
+				return nil
+			}
+			idx, ok := seen[h.Name]
+			if !ok {
+				idx = len(seen) + 1
+				seen[h.Name] = idx
+			}
+			if idx != f.At {
+				return nil
+			}
+			w.forcedFired++
+			w.s.Count("fault:sticky-" + strings.ToLower(op) + "-" + h.Type.String())
+			return &simbe.Forced{Kind: "err-before"}
+		}
 	case "transient":
 		pr.cl.F = simbe.Faults{ErrBefore: 50, ErrAfter: 50, PartialRead: 30, ListFail: 30, Budget: f.Budget, Delay: 40, MaxDelay: 10 * time.Minute}
 		if !w.cfg.Atomic {
@@ -75,6 +118,17 @@ func (w *world) genFault(allow string) fault {
 		}
 	case 4:
 		return fault{Kind: "transient", Budget: 1 + tp.Choose(5)}
+	case 5:
+		// (was "no fault", which case 0 still is)
+		switch tp.Choose(3) {
+		case 0:
+			return fault{Kind: "sticky", Op: []string{"Remove", "Save"}[tp.Choose(2)], At: 1 + tp.Choose(3),
+				Type: []backend.FileType{backend.SnapshotFile, backend.IndexFile, backend.PackFile}[tp.Choose(3)]}
+		case 1:
+			return fault{Kind: "errafter", At: 1 + tp.Choose(20)}
+		default:
+			return fault{Kind: "errbefore", At: 1 + tp.Choose(20)}
+		}
 	}
 	return fault{}
 }
